@@ -224,6 +224,13 @@ func Variants(inst string) []Variant {
 			{Name: "25/8", V4Len: []int{25, 8}, Tick: ms25,
 				Addr: addrs("a", "200.7.7.128", "a2", "200.7.7.255", "b", "200.7.7.127", "c", "201.7.7.128", "x", "2001:db8::1")},
 		}
+	case "sub4L":
+		// sub4 plus one IPv6 level for x
+		vs := Variants("sub4")
+		for i := range vs {
+			vs[i].V6Len = []int{[]int{64, 128, 10, 96, 56}[i%5]}
+		}
+		return vs
 	case "np", "knp":
 		return []Variant{
 			{Name: "24in16", V4Len: []int{32}, V6Len: []int{128}, Tick: s1,
@@ -687,8 +694,16 @@ func (o *Oracle) describe(ch []*OB) string {
 
 // MustBeGone / MustBeHeld (R6) for a subnet bucket right after a call that ran SubnetLimiter.Allow.
 func (o *Oracle) MustBeGone(bid string) bool {
+	// strictly after: at the very instant of Expiry the code drops it, its comment ("expiry before") would keep it
 	b := o.Sub[bid]
-	return b.ExpAt >= 0 && b.ExpAt <= o.Now
+	return b.ExpAt >= 0 && b.ExpAt < o.Now
+}
+
+// InGrace: full again but the grace period is not over: the code promises to keep it ("GracePeriod is the time to
+// wait to remove a full capacity bucket").
+func (o *Oracle) InGrace(bid string) bool {
+	b := o.Sub[bid]
+	return b.Def == 0 && b.ExpAt > o.Now
 }
 func (o *Oracle) MustBeHeld(bid string) bool {
 	b := o.Sub[bid]
